@@ -5,6 +5,7 @@ import (
 	"runtime"
 	"strconv"
 	"strings"
+	"verifharness/docs"
 
 	"verifharness/gen"
 	"verifharness/mon"
@@ -103,7 +104,7 @@ func c05(r *mon.Run) {
 		}})
 	// every built-in function on edge strings / values (scanner and conversion code inside the handlers)
 	edge := []string{"", " ", "1e", "1E-", "12.5e+", "-", "+", ".", "1.", ".5", "-.", "0x", "0x1p", "1e999", "-1e999", "00", "01", "1_0", "١", "NaN", "Inf", "-0", "1e-999", "9223372036854775808",
-		"\x00", "a\x00b", "\xff", "\xe2\x82", "é", "😀", "\u2028", "'", "\\", "[", "{", "null", "true", "\"q\"", "[1", "{\"a\":", "1 2", strings.Repeat("9", 400), strings.Repeat("a", 70000)}
+		"\x00", "a\x00b", "\xff", "\xe2\x82", "é", "😀", "\u2028", "\u0301abc", "\u0301", "\ufe0f", "\u064e\u0628", "a\u0301\u0302\u0303", "\u200d", "\U0001F468\u200d\U0001F469", "'", "\\", "[", "{", "null", "true", "\"q\"", "[1", "{\"a\":", "1 2", strings.Repeat("9", 400), strings.Repeat("a", 70000)}
 	efns := []string{"to_number", "to_string", "to_array", "type", "length", "reverse", "abs", "ceil", "floor", "not_null", "keys", "values", "sort", "max", "min", "sum", "avg", "contains", "starts_with", "ends_with", "join"}
 	ne := len(efns) * len(edge) * 3
 	ws = append(ws, mon.Workload{Name: "function-edge-strings", N: ne, Batch: 50,
@@ -204,6 +205,25 @@ func c05(r *mon.Run) {
 				}
 			}
 			t.Nontrivial("deq:" + strconv.Itoa(i))
+		}})
+	// arithmetic that leaves the finite range (sums of finite document numbers that overflow, +Inf + -Inf) and what
+	// every function and operator then makes of the non-finite value: a value or an error, no panic
+	big := docs.J(`{"a":[1e308,1e308],"b":[-1e308,-1e308],"c":[1e308,1e308,-1e308,-1e308],"d":[1.7976931348623157e308,1e292],"n":1e308,"rows":[{"v":[1e308,9e307]},{"v":[1,2]}]}`)
+	ovf := []string{"sum(a)", "avg(d)", "to_string(sum(a))", "[sum(a), sum(b)]", "{x: sum(a)}", "abs(sum(b))", "sum(a) > `0`", "sum(a) == sum(a)", "to_number(to_string(sum(a)))", "ceil(sum(a))", "floor(sum(b))", "sort([sum(a), `1`])",
+		"max([sum(a), sum(b)])", "min([sum(b), `0`])", "sum([sum(a), sum(b)])", "avg([sum(a), sum(b)])", "to_string([sum(a)])", "to_string({k: sum(b)})", "join(',', [to_string(sum(a))])", "rows[*].sum(v)", "rows[*].to_string(sum(v))",
+		"sort_by(rows, &sum(v))", "max_by(rows, &sum(v))", "map(&sum(v), rows)", "sum(a) | to_string(@)", "not_null(sum(a))", "type(sum(a))", "to_array(sum(a))", "contains([sum(a)], sum(a))", "length(to_string(sum(a)))", "reverse(to_string(sum(b)))",
+		"merge({k: sum(a)}, {j: sum(b)})", "keys({k: sum(a)})", "values({k: sum(a)})", "[sum(a)][?@ > `0`]", "sum(c)", "avg(c)", "to_string(avg(c))", "sum(a) < sum(b) || sum(a)", "!sum(a)", "sum(a) && sum(b)"}
+	ws = append(ws, mon.Workload{Name: "overflowing-arithmetic", N: len(ovf), Batch: 10,
+		Describe: func(i int) string { return ovf[i] },
+		Do: func(i int, t *mon.Tally) {
+			t.Eval()
+			for k, o := range []mon.Observed{apiSearch(ovf[i], big), apiCompiledSearch(ovf[i], big)} {
+				if o.Panicked {
+					r.Violate(&mon.Violation{Workload: "overflowing-arithmetic", Index: i, API: []string{"Search", "Compile+Search"}[k], Expr: ovf[i], Doc: big, Expected: "a value or an error", Observed: o.String(), Detail: o.Stack, Class: "overflowing-arithmetic: panic"})
+					return
+				}
+			}
+			t.Nontrivial("ovf:" + ovf[i])
 		}})
 	th := r.Tier == "thorough"
 	ws = append(ws, mon.Workload{Name: "sized-arrays", N: sizedCount(th), Batch: 500,
